@@ -132,6 +132,11 @@ func verifC16Stalled() {
 	}
 	healthyInSync := func(label string) {
 		if nLd == 2 {
+			// natively the document is written as soon as lookupLoop has TAKEN the notification,
+			// while the healthy lookupd is told only after the silent one has cost its deadline
+			for i := 0; !verifrt.Symbolic() && !verifInSync(r.n, w.lds[1]) && i < 100; i++ {
+				time.Sleep(50 * time.Millisecond)
+			}
 			verifrt.Assert(verifInSync(r.n, w.lds[1]), label)
 		}
 	}
